@@ -19,6 +19,30 @@ theorem thresholds_recognised :
     gpptAcceptOp ≠ Cmp.other ∧ gpptBreakOp ≠ Cmp.other ∧ gpptRhsOnePlusThreshold = true ∧ swapOp ≠ Cmp.other := by
   decide
 
+/-- the Hermiticity guards of `is_ppt`, `check_reduction_witness`, `get_negativity` are present and complete (reject real-asymmetric,
+imaginary-diagonal and imaginary-symmetric deviations of size `1` and `1e-9`, accept deviations of `1e-12`) -/
+theorem herm_guards_recognised : isPptHermGuard = true ∧ reductionHermGuard = true ∧ negativityHermGuard = true := by
+  decide
+
+/-- a guard never rejects a Hermitian matrix - in particular never a separable state -/
+theorem hermGuard_accepts_hermitian (guard : Bool) (N : ℕ) (herm : ℕ → ℕ → Bool) (h : ∀ r c, r < N → c < N → herm r c = true) :
+    hermGuardRejects guard N herm = false := by
+  have hall : ((List.range N).all fun r => (List.range N).all fun c => herm r c) = true := by
+    simp only [List.all_eq_true, List.mem_range]
+    exact fun r hr c hc => h r c hr hc
+  simp [hermGuardRejects, hall]
+
+/-- with the guard present, a matrix with a non-Hermitian pair of entries is rejected -/
+theorem hermGuard_rejects (N : ℕ) (herm : ℕ → ℕ → Bool) (r c : ℕ) (hr : r < N) (hc : c < N) (h : herm r c = false) :
+    hermGuardRejects true N herm = true := by
+  have hall : ((List.range N).all fun r => (List.range N).all fun c => herm r c) = false := by
+    rw [Bool.eq_false_iff]
+    intro hh
+    simp only [List.all_eq_true, List.mem_range] at hh
+    rw [hh r hr c hc] at h
+    exact Bool.noConfusion h
+  simp [hermGuardRejects, hall]
+
 /-- the shift that `is_ppt` really adds to the diagonal before Cholesky, at the default `eps` -/
 def pptSlack : ℚ := (psdShiftCoeff : ℚ) * ((isPptShiftCoeff : ℚ) * isPptEpsDefault)
 /-- … and `check_reduction_witness` -/
